@@ -47,6 +47,7 @@ type harnessResult struct {
 	Samples        []map[string]interface{} `json:"samples"`
 	DistinctPaths  int                      `json:"distinct_path_signatures"`
 	Bounds         map[string]string        `json:"bounds,omitempty"`
+	AbortReasons   map[string]int           `json:"abort_reasons,omitempty"`
 }
 
 func main() {
@@ -195,7 +196,7 @@ func main() {
 			UnknownAsserts: ex.unknownAssert, UnknownBranch: ex.unknownBranch, Violations: ex.violations, Errors: ex.errors,
 			Reach: ex.reachAll, Queries: solver.nQueries, QSat: solver.nSat, QUnsat: solver.nUnsat, QUnknown: solver.nUnknown,
 			CacheHits: solver.cacheHits, SolverSec: solver.solverTime.Seconds(), WallSec: time.Since(ex.start).Seconds(),
-			Steps: ex.totalSteps, MaxDecisions: ex.maxDecisions, Samples: ex.samples, DistinctPaths: len(ex.distinctSig)}
+			Steps: ex.totalSteps, MaxDecisions: ex.maxDecisions, Samples: ex.samples, DistinctPaths: len(ex.distinctSig), AbortReasons: ex.abortReasons}
 		for f := range ex.funcs {
 			pos := prog.Fset.Position(f.Pos())
 			r.Funcs = append(r.Funcs, fmt.Sprintf("%s (%s:%d)", f.String(), shortPos(pos.Filename), pos.Line))
